@@ -127,9 +127,9 @@ type Full struct {
 }
 
 type FullOpts struct {
-	Metadata metadata.Metadata // nil: library default per config
-	Consumer *Consumer
-	EH       *EventHandler
+	Metadata     metadata.Metadata // nil: library default per config
+	Consumer     *Consumer
+	EH           *EventHandler
 	ReadyTimeout time.Duration
 	// WhileStarting runs concurrently with Start() before readiness (e.g. to feed the first
 	// membership information to a dynamic membership through the HTTP API).
